@@ -116,8 +116,8 @@ def Data.ranks.step (enumerated : List (Int × α)) (tie_breaker : RankTieBreake
   -- if i == 0 { prev_idx = idx; prev_elt = *elt; }
   let prev_idx := if i = (0 : Int) then idx else st.2.2.1
   let prev_elt := if i = (0 : Int) then elt else st.2.2.2
-  -- if (*elt - prev_elt).abs() <= 0.0 { continue; }
-  if (RFun.abs (elt - prev_elt)) ≤ (0.0 : α) then (ranks, (prev, (prev_idx, prev_elt)))
+  -- if *elt == prev_elt { continue; }
+  if ((elt == prev_elt) = true) then (ranks, (prev, (prev_idx, prev_elt)))
   else
     -- if i == prev + 1 { ranks[prev_idx] = i as f64; } else { handle_rank_ties(…, prev, i, …); }
     let ranks :=
